@@ -16,7 +16,7 @@ class C14(diffprop.Spec):
                   "the async path's delivery of low-level writes to the transport is C01/C02's subject (here only the final wire bytes are compared after quiescence).")
     rule = ("random messages of 9 kinds (incl. unsupported int and bare string) with sizes from {0, 1-3, 1023-1025, 2047-2049, <5000, 65536-65538 rarely}; reader scripts of 0-4 fragments "
             "(each up to 3000 bytes, 1/8 with EOF attached, 1/8 with an error attached); each message sent through FireChannelWrite on a sync and an async channel and through "
-            "ToBytes/ToReader/CountOf/ByteReader; non-trivial = message with non-empty content; distinct by full line; 1/2 of the cases also run on a synchronous channel over transport.NewTransport(conn, 0, 16|512|4096|100000); 1/3 of the reader / buffer carriers have already been read from (the message is what is left)")
+            "ToBytes/ToReader/CountOf/ByteReader; non-trivial = message with non-empty content; distinct by full line; 1/2 of the cases also run on a synchronous channel over transport.NewTransport(conn, 0, 16|512|4096|100000); 1/3 of the reader / buffer carriers have already been read from (the message is what is left); 1/4 of the io.WriterTo messages are a 1-16 byte header plus a body of 65537-70536 bytes (either order); every ToBytes result is emitted again four conversions later")
     assumptions = ("readers never return (0, nil) forever", "the transport accepts all writes")
     modelled_not_verified = ("bytes.Buffer / bytes.Reader / strings.Reader WriteTo (single write of own storage)", "ioutil.ReadAll")
 
